@@ -25,6 +25,7 @@ open TTV.Conc
 inductive Act where
   | acquire                     -- `self.semaphore.acquire()`
   | release                     -- `self.semaphore.release()`
+  | tryAcquire                  -- `self.semaphore.acquire(blocking=False)`: never waits; in no reference skeleton
   | callTimeStart               -- `self.result.time(self._test_start)`
   | callStartTest               -- `self.result.startTest(test)`
   | callTimeNow                 -- `self.result.time(now)`, `now` bound to `self._now()` on entry
@@ -77,6 +78,7 @@ def call (f : List Nat) (c : Call) (s : ISt) : ISt :=
 def doAct (f : List Nat) (a : Args) : Act → ISt → ISt
   | .acquire, s => { s with steps := s.steps ++ [.acq] }
   | .release, s => { s with steps := s.steps ++ [.rel] }
+  | .tryAcquire, s => { s with steps := s.steps ++ [.tryAcq] }
   | .callTimeStart, s => call f (.time s.loc.start) s
   | .callStartTest, s => call f (.startTest a.id) s
   | .callTimeNow, s => call f (.time s.loc.nowT) s
